@@ -16,7 +16,7 @@ RULE = ("The same generated Stack trees as C18 (depth <= 4, width <= 3, hidden f
         "match entry for entry, be a StackSummary, survive pickle round trip, reach no frame object, and format_flat() must be "
         "header + summary.format() + leaf line + error lines. Non-trivial: tree with a hidden element inside a context or an "
         "exiting last context; distinct = distinct IR. Second leg: REAL stacks - extract() of a frame holding a generated "
-        "tree of plain / generator-based managers and exit stacks (the C09 space), with 0-3 elements inside contexts marked "
+        "tree of plain / generator-based managers and exit stacks (the C09 space), observed suspended in the body or inside a chosen manager's __aexit__, with 0-3 elements inside contexts marked "
         "hidden afterwards - summarised in all 8 combinations and compared with the same projection computed over the real "
         "Stack object, plus pickle and format_flat decomposition.")
 ASSUMPTIONS = [
@@ -129,8 +129,10 @@ def check_tree(ws, interps, tree, out):
 def real_cases():
     from hypothesis import strategies as st
     from checks import c09
-    return st.tuples(c09.roots(), st.lists(st.integers(0, 10 ** 6), min_size=0, max_size=3)).map(
-        lambda t: {"root": t[0], "hide_marks": t[1]})
+    def mk(t):
+        ids = c09.plain_ids(t[0], [])
+        return {"root": t[0], "hide_marks": t[1], "exiting": ids[t[2] % len(ids)] if ids and t[2] % 2 else None}
+    return st.tuples(c09.roots(), st.lists(st.integers(0, 10 ** 6), min_size=0, max_size=3), st.integers(0, 10 ** 6)).map(mk)
 
 
 def check_real(ws, interps, case, out):
@@ -138,12 +140,15 @@ def check_real(ws, interps, case, out):
     hidden = 0
     for interp in interps:
         try:
-            res = ws[interp].request({"op": "ctxtree.summary", "root": case["root"], "hide_marks": case["hide_marks"]})
+            res = ws[interp].request({"op": "ctxtree.summary", "root": case["root"], "hide_marks": case["hide_marks"],
+                                      "exiting": case.get("exiting")})
         except WorkerDied as ex:
             viols.append({"desc": "interpreter %s died (exit %r)" % (interp, ex.returncode), "interp": interp})
             continue
         out.per_interp[interp] += 1
         hidden = res["stats"]["hidden"]
+        if res["stats"].get("exiting"):
+            out.hist["real_stack.suspended_in_an_exiting_manager"] += 1
         out.extra["real_stack_summaries"] = out.extra.get("real_stack_summaries", 0) + res["stats"]["combos"]
         if res["obs"]:
             viols.append({"desc": "real stack: %s on %s: %r" % (res["obs"][0]["kind"], interp, res["obs"][0]), "interp": interp})
